@@ -1,6 +1,6 @@
 # kills (see DESIGN.md): case 'Z' falling into markdone; --numtodo on Z; addbounce after markdone; mangled report calling markdone;
 #        delnum range check `>=` -> `>`; missing `!d[c][delnum].used` test; flagdying ignored
-from vlib import Obl, Prog
+from vlib import Obl, Prog, borrow
 
 STR = ["stralloc_catb.c", "stralloc_opyb.c", "stralloc_pend.c", "stralloc_cats.c", "stralloc_opys.c",
        "stralloc_copy.c", "stralloc_cat.c", "byte_copy.c"]
@@ -76,11 +76,30 @@ def obligations(tier):
               "C03(5)/C10: each T record yields exactly one T record in exactly one channel file, in order; info = F record; any failure leaves todo/N and schedules nothing",
         expect_witnesses=lambda p: ["failure_leaves_todo", "unknown_record_leaves_todo", "committed_and_scheduled", "cleaner_refused", "no_recipients_done"]
                          + (["both_channels_scheduled"] if p["E"] >= 6 else [])))
+    # "oversized reports are truncated": REPORTMAX (10000) cannot be executed at its real size, so the truncation logic
+    # is checked on a regenerated copy whose only edit is the value of that constant (the edit fails loudly if the
+    # #define is no longer there); stated as such in the evidence
+    steps.append(Obl("del_dochan_truncation", "del_dochan.c",
+        progs=[Prog("qmail-send.c", nomain=True, cut=["markdone", "addbounce", "job_close", "del_status"],
+                    sub=[(r"^#define REPORTMAX 10000$", "#define REPORTMAX 4", 1)])],
+        repo=STR, lib=["arena_stralloc.c"], defines={"ARENA_CAP": 128, "ARENA_SLOTS": 6}, sysrename=["read"],
+        grid=[{"R": 6, "P": 0, "STRICT": 1, "CH": 0}, {"R": 4, "P": 2, "STRICT": 1, "CH": 1}] if tier == "quick" else
+             [{"R": r, "P": p, "STRICT": 1, "CH": (r + p) % 2} for r in (5, 6, 7) for p in (0, 2)],
+        unwind_default=lambda p: p["R"] + p["P"] + 6, unwind={"byte_copy": 80, "vmain~ARENA_CAP": 130, "addbounce": 100}, timeout=900 if tier == "quick" else 3400,
+        functions=["qmail-send.c:del_dochan (REPORTMAX scaled to 4)"],
+        cuts=["markdone, addbounce, job_close -> observed", "REPORTMAX 10000 -> 4 in the regenerated copy (parametric check of the truncation logic)"],
+        assumes=["as del_dochan; reports of up to 7 bytes against REPORTMAX=4, report buffer pre-filled with non-zero garbage"],
+        outside=["the real constant 10000 is not executed; that the code is uniform in REPORTMAX is an argument, not a verdict"],
+        claim="C18: an oversized report is truncated to REPORTMAX bytes, keeps its verdict, and the text handed on is NUL-terminated inside the truncated report",
+        expect_witnesses=["success_marked", "permanent_failure_bounced"]))
+    # C03(4) second half: injectbounce() returns 1 and unlinks bounce/N only if the notice naming the failed recipients
+    # was queued completely (shared with C14)
+    steps += borrow("C14", ["injectbounce"], tier)
     return steps + [
         Obl("del_dochan", "del_dochan.c",
             progs=[Prog("qmail-send.c", nomain=True, cut=["markdone", "addbounce", "job_close", "del_status"])],
             repo=STR, lib=["arena_stralloc.c"], defines={"ARENA_CAP": 128, "ARENA_SLOTS": 6}, sysrename=["read"],
-            grid=grid, unwind_default=lambda p: p["R"] + p["P"] + 6, unwind={"byte_copy": 80},
+            grid=grid, unwind_default=lambda p: p["R"] + p["P"] + 6, unwind={"byte_copy": 80, "vmain~ARENA_CAP": 130, "addbounce": 100},
             timeout=900 if tier == "quick" else 3400,
             functions=["qmail-send.c:del_dochan", "qmail-send.c:spawndied", "stralloc_pend.c:stralloc_append", "stralloc_cats.c"],
             cuts=["markdone -> observed (proved separately: obligation markdone)", "addbounce -> observed (C14)",
